@@ -188,7 +188,29 @@ class FunctionAnalysis:
         self.hash_obligation()
         self.memo_read_obligation()
         self.memo_input_obligation()
+        self.stored_order_obligation()
         return self.obligations
+
+    def stored_order_obligation(self):
+        """a field may not store ``list(<set>)`` / ``tuple(<set>)``: the order of the stored sequence is the set's
+        iteration order (hash-seed dependent for strings), and stored fields feed identifiers (digests), dictionaries
+        and exported text."""
+        for n in ast.walk(self.node):
+            if not isinstance(n, ast.Assign):
+                continue
+            v = n.value
+            if not (isinstance(v, ast.Call) and isinstance(v.func, ast.Name) and v.func.id in ("list", "tuple") and v.args):
+                continue
+            arg = v.args[0]
+            is_set = self.is_set_expr(arg) or (
+                isinstance(arg, ast.Call) and isinstance(arg.func, ast.Attribute) and isinstance(arg.func.value, ast.Name)
+                and arg.func.value.id in ("set", "frozenset"))
+            if not is_set:
+                continue
+            for t in n.targets:
+                if isinstance(t, ast.Attribute) and isinstance(t.value, ast.Name) and t.value.id == "self":
+                    self.obligations.append(Ob(self.site("order", f"self.{t.attr} = {ast.unparse(v)[:60]}"), False,
+                                               "a field stores a set flattened in iteration order"))
 
     def _late_assigned(self):
         """field names X with an assignment ``<obj>.X = ...`` (also augmented) anywhere in the repository outside
